@@ -4,6 +4,7 @@ import Preflate.Model.Chains
 import Preflate.Model.Stream
 import Preflate.Model.Estimator
 import Preflate.Model.EstimatorFull
+import Preflate.Model.DecodeBytes
 namespace Preflate.Driver
 open Preflate
 
@@ -75,5 +76,20 @@ def publicLine (d : List UInt8) : String :=
     let bytes ← encodeBytes r.corr
     pure (r.size, bytes)) fun (size, bytes) =>
       s!"ok {size} {bytes.size} {fnvBytes bytes.toList}"
+
+/-- `recompress` request: the public function `recompress_deflate_stream(plain_text,
+    prediction_corrections)` in the model, at its real type — bytes in, bytes out; the reconstruction
+    pulls every value out of the VP8 reader over the correction bytes on demand (`recompressBytes`,
+    Model/DecodeBytes.lean; `Proofs.public_bytes_exact` is about this function).
+
+    The Rust block loop has no bound: on damaged corrections it may never return (e.g. plain "hello
+    stored world", corrections 00 ab 8b: max_token_count = 0 is read and every block is empty). The
+    driver therefore runs `recompressBytesWithin budget`; by `Proofs.recompressBytesWithin_eq` its answer
+    IS the answer of `recompressBytes` unless it is `fuel` ("still looping after `budget` blocks"). -/
+def recompressLine (plain corr : List UInt8) : String :=
+  let budget := 16384 + 8 * (plain.length + corr.length)
+  outcome (recompressBytesWithin budget Chains.pred (plain.map (·.toNat)).toArray corr.toArray) fun out =>
+    s!"ok {hex out}"
+
 
 end Preflate.Driver
